@@ -60,6 +60,10 @@ type Conn struct {
 	Delivered int
 	reads     int
 
+	// OnFirstWrite, when set, runs inside the first Write call, before the bytes are accepted
+	OnFirstWrite   func()
+	firstWriteSeen int32
+
 	out         bytes.Buffer
 	writeSizes  []int
 	failAfter   int // fail writes once this many bytes were accepted; <0 never
@@ -158,6 +162,9 @@ func (c *Conn) Read(p []byte) (int, error) {
 }
 
 func (c *Conn) Write(p []byte) (int, error) {
+	if c.OnFirstWrite != nil && atomic.CompareAndSwapInt32(&c.firstWriteSeen, 0, 1) {
+		c.OnFirstWrite() // the peer is slow to take the response: whatever the harness wants to happen meanwhile
+	}
 	c.mu.Lock()
 	defer c.mu.Unlock()
 	if atomic.LoadInt32(&c.closed) != 0 {
